@@ -22,6 +22,13 @@ CORE_TRUSTED = [
     "monotonic clock that advances only inside waits and by explicit scenario actions; linker interposition (-Wl,--wrap) of the "
     "libc entry points ivykis uses; the real Linux kernel is not in the loop",
     "one scenario per process (fork per case), ASan/UBSan on library and harness",
+    "harness rules, judged outside Coq and reported as failing inputs (trace segments `X ...`, which no model trace contains): "
+    "descriptor flags after a raw-event registration; close of a descriptor that is not open (vk.c); at the return of iv_main "
+    "(ivsim.c check_end_state, reads the library's private structs): a registered timer is in the heap, a registered task is on the "
+    "loop's task list, a registered descriptor is on no active list; a sanitizer report / crash of the scenario process (code 1801) "
+    "counts for every core check",
+    "monitors on the implementation trace: Core/Monitors.v (tracker, all codes proved absent: core_mon_all), Core/GuardMon.v "
+    "(core_gmon_all), Core/FairMon.v (clause 605, core_fair)",
 ]
 
 
